@@ -716,12 +716,21 @@ def record(r_py):
 
 def perturb(rng, codes, conc):
     """formatter output with other blanks between the tokens (and, rarely, one token missing): input
-    generation for the probe traces"""
+    generation for the probe traces.  Two things the token abstraction cannot express are avoided:
+    a missing '<', or a missing separator right after a '>', lets the greedy <.+> swallow words
+    that were tokenized as top-level names; strip('<> ') takes blanks but not tabs off the formula,
+    so no tab is put next to an angle bracket."""
     codes = list(codes)
+    kinds = [KINDS[c // 1000 - 1] for c in codes]
     if rng.random() < 0.08:
-        # not '<': the greedy <.+> would then swallow words that were tokenized as top-level names,
-        # which the token abstraction cannot express
-        cand = [j for j, c in enumerate(codes) if KINDS[c // 1000 - 1] not in ("sp", "lt")]
+        def droppable(j):
+            if kinds[j] in ("sp", "lt"):
+                return False
+            if kinds[j] in ("comma", "pipe"):
+                before = [k for k in kinds[:j] if k != "sp"]
+                return not (before and before[-1] == "gt")
+            return True
+        cand = [j for j in range(len(codes)) if droppable(j)]
         del codes[rng.choice(cand)]
     kinds = [KINDS[c // 1000 - 1] for c in codes] + ["end"]
     wordy = set(PAYLOAD_KINDS) | {"bang", "op"}
@@ -730,7 +739,8 @@ def perturb(rng, codes, conc):
         k = kinds[j]
         if k == "sp":
             tight = not (kinds[j - 1] in wordy and kinds[j + 1] in wordy)
-            out.append(rng.choice(("", " ", " ", "  ", "\t", " ") if tight else (" ", "  ", "\t")))
+            angle = kinds[j - 1] in ("lt", "gt") or kinds[j + 1] in ("lt", "gt")
+            out.append(rng.choice(("", " ", " ", "  ", " " if angle else "\t", " ") if tight else (" ", "  ", "\t")))
         else:
             out.append(tokens_to_text([c], conc))
             if rng.random() < 0.12 and k != "bang" and not (k in wordy and kinds[j + 1] in wordy):
